@@ -509,3 +509,60 @@ Proof.
 Qed.
 
 End Main.
+
+Lemma NoDup_app_swap_cons {A} (g : A) gs F : NoDup (g :: gs ++ F) -> NoDup (gs ++ g :: F).
+Proof. intros H. eapply Permutation_NoDup; [|exact H]. apply Permutation_middle. Qed.
+
+(* ------------------------------------------------------------------ loading all the files of a master, one by one *)
+Section LoadAll.
+Variable T : tables.
+Variables LATEST defref v : N.
+Variable fver : N -> option N.
+Hypothesis fver_v : forall f, fver f = Some v.
+
+(* the first file of a model: its tree becomes the model, the root is in that file *)
+Definition first_view (g : N) (t : mtree) : htree := h_set_local (pview g t) [g].
+
+(* merge_file_data for the files gs in this order: merge_element at the root, then the root joins the new file *)
+Fixpoint load_all_pure (fuel : nat) (t : mtree) (F : list N) (a : htree) (gs : list N) : res (out htree) :=
+  match gs with
+  | [] => Val (OK a)
+  | g :: r =>
+    (let* o := pmerge T LATEST defref fver fuel a (inF F (mfiles t)) (pview g t) g in
+     match o with
+     | ER e => Val (ER e)
+     | OK a' => load_all_pure fuel t (g :: F) (h_set_local a' (set_add g (h_local a'))) r
+     end)%res
+  end.
+
+Lemma first_view_rep t g : Good T defref v t -> In g (mfiles t) -> Rep T [g] None t (first_view g t).
+Proof.
+  intros HG Hg. unfold first_view.
+  apply (Rep_pview T defref v (depth t) t (le_n _) HG [] g None Hg).
+  unfold inF. clear. induction (mfiles t) as [|x l IH]; cbn; auto.
+Qed.
+
+Theorem load_all_rep fuel t : (depth t < fuel)%nat -> Good T defref v t ->
+  forall gs F a,
+    NoDup (gs ++ F) -> (forall g, In g gs -> In g (mfiles t)) -> Rep T F None t a ->
+    exists a', load_all_pure fuel t F a gs = Val (OK a') /\ Rep T (rev gs ++ F) None t a'.
+Proof.
+  intros Hd HG. induction gs as [|g gs IH]; intros F a Hnd Hin HR.
+  - exists a. split; [reflexivity|exact HR].
+  - cbn [load_all_pure]. cbn [app] in Hnd. inversion Hnd as [|? ? Hnot Hnd']; subst.
+    assert (HgF : ~ In g F) by (intros H; apply Hnot; apply in_or_app; right; exact H).
+    assert (Hg : In g (mfiles t)) by (apply Hin; left; reflexivity).
+    destruct (pmerge_rep T LATEST defref v fver fver_v fuel t Hd HG F g None a HgF Hg HR) as (a' & E & Hl & Hr).
+    rewrite E. cbn [bind].
+    destruct (Rep_shape T F None t a HR) as (_ & _ & Hloc & _). cbn [norm] in Hloc.
+    destruct (Good_files T defref v t HG) as (Hs & _).
+    specialize (Hr None). cbn [norm] in Hr. rewrite (inF_cons_in g F (mfiles t) Hs Hg HgF) in Hr.
+    rewrite Hl, Hloc.
+    destruct (IH (g :: F) (h_set_local a' (set_add g (inF F (mfiles t))))) as (a'' & E2 & R2).
+    + apply NoDup_app_swap_cons. exact Hnd. 
+    + intros g0 H0. apply Hin. right. exact H0.
+    + exact Hr.
+    + exists a''. split; [exact E2|]. cbn [rev]. rewrite <- app_assoc. exact R2.
+Qed.
+
+End LoadAll.
